@@ -408,6 +408,56 @@ def faults(rng, case):
     return out
 
 
+def sibling_of(rng, base):
+    """a copy of a generated case whose declarations keep their names but change their meaning: every extern
+    denotes another C++ type, events keep their names but change their signatures (formals dropped, added,
+    reversed, passed the other way) - what a cache keyed by names + configuration (not by model) mixes up"""
+    c = json.loads(json.dumps({k: v for k, v in base.items() if k != '_info'}))
+    ctypes = ['int', 'long', '::vt::Ext<1>', '::vt::Ext<2>', '::vt::Ext<3>', 'std::chrono::milliseconds']
+
+    def mutate_event(ev, donors):
+        opts = []
+        if ev['formals']:
+            opts.append('drop')
+        if len(ev['formals']) >= 2:
+            opts.append('reverse')
+        if ev['dir'] == 'in' and ev['formals']:
+            opts.append('flip')
+        fresh = [d for d in donors if all(d['name'] != f['name'] for f in ev['formals'])]
+        if fresh:
+            opts += ['add', 'add']
+        if not opts:
+            return
+        o = rng.choice(opts)
+        if o == 'drop':
+            ev['formals'] = ev['formals'][:-1]
+        elif o == 'reverse':
+            ev['formals'] = ev['formals'][::-1]
+        elif o == 'flip':
+            for f in ev['formals']:
+                f['dir'] = {'in': 'inout', 'inout': 'in', 'out': 'inout'}[f['dir']]
+        else:
+            d = dict(rng.choice(fresh))
+            d['dir'] = 'in'
+            ev['formals'] = ev['formals'] + [d]
+
+    def walk(elems):
+        for e in elems:
+            if e['k'] == 'namespace':
+                walk(e['elems'])
+            elif e['k'] == 'extern':
+                e['value'] = rng.choice([t for t in ctypes if t != e['value']])
+            elif e['k'] == 'interface':
+                donors = [f for ev in e['events'] for f in ev['formals']]
+                for ev in e['events']:
+                    if rng.random() < 0.8:
+                        mutate_event(ev, donors)
+    walk(c['src'])
+    c['ast'] = M.enc_root(c['src'])
+    c['_info'] = base['_info']
+    return c
+
+
 def flipped_semantics(case):
     """the same model with the other runtime semantics on every side (another valid configuration)"""
     c = copy.deepcopy({k: v for k, v in case.items() if k != '_info'})
@@ -420,10 +470,52 @@ def flipped_semantics(case):
     return c
 
 
-def build_real(case, shared=None):
+# One long-lived "session" per harness process: what a build script does - parse a model once, keep one
+# Builder and one Configuration object, edit the configuration in place and build again.  The model of
+# Builder.build is a pure function, so any dependence of a result on what was built before (a cache keyed
+# too coarsely, a stale recipe, a mutated input) shows as a deviation.  Every fourth case (by content hash)
+# is built the other way - fresh parse, fresh Builder, fresh Configuration - so that first-build behaviour
+# stays covered as well.
+import threading
+_SESSION = {'fcs': [], 'builder': None, 'conf': None}
+_SESSION_LOCK = threading.RLock()      # compiled-program checks build from worker threads
+SESSION_MODE = True
+
+
+def _session_fc(ast_json, parse):
+    key = json.dumps(ast_json, sort_keys=True)
+    for i, (k, fc) in enumerate(_SESSION['fcs']):
+        if k == key:
+            _SESSION['fcs'].append(_SESSION['fcs'].pop(i))
+            return fc
+    fc = parse()
+    _SESSION['fcs'].append((key, fc))
+    del _SESSION['fcs'][:-8]
+    return fc
+
+
+def live_configuration(holder, conf):
+    """copy every field of the freshly constructed (hence validated) Configuration into ONE long-lived
+    Configuration object and return that: the user edits the configuration in place between builds"""
+    import dataclasses
+    live = holder.get('conf')
+    if live is None:
+        holder['conf'] = conf
+        return conf
+    try:
+        for f in dataclasses.fields(conf):
+            setattr(live, f.name, getattr(conf, f.name))
+    except Exception:  # noqa - a frozen Configuration cannot be edited in place
+        holder['conf'] = conf
+        return conf
+    return live
+
+
+def build_real(case, shared=None, fresh=None):
     """run the real parser + Builder; returns {"ok": {"files": [...]}} | {"err": tag}.
     `shared`: a dict that carries one parsed FileContents and one Builder object over several builds of the
-    same model (what a build script does: parse once, build several shells)"""
+    same model (what a build script does: parse once, build several shells); without it the process-wide
+    session is used (see above) unless `fresh`"""
     use_repo_src()
     from dznpy.json_ast import DznJsonAst
     from dznpy.adv_shell import Builder
@@ -432,11 +524,32 @@ def build_real(case, shared=None):
     from dznpy.scoping import NamespaceIds
     from harness.props.c03 import mk_portscfg
     cfg = case['cfg']
+    if fresh is None:
+        import zlib
+        fresh = (not SESSION_MODE) or zlib.crc32(json.dumps([case['ast'], cfg], sort_keys=True).encode()) % 4 == 0
+    session = shared is None and not fresh
+    if session:
+        with _SESSION_LOCK:
+            return _build_real(case, cfg, shared, session)
+    return _build_real(case, cfg, shared, session)
+
+
+def _build_real(case, cfg, shared, session):
+    from dznpy.json_ast import DznJsonAst
+    from dznpy.adv_shell import Builder
+    from dznpy.adv_shell.common import Configuration, FacilitiesOrigin
+    from dznpy.adv_shell.port_selection import MultiClientPortCfg
+    from dznpy.scoping import NamespaceIds
+    from harness.props.c03 import mk_portscfg
     try:
+        def parse():
+            return DznJsonAst(json_contents=json.dumps(case['ast'])).process()
         if shared is not None and shared.get('ast') == case['ast']:
             fc = shared['fc']
+        elif session:
+            fc = _session_fc(case['ast'], parse)
         else:
-            fc = DznJsonAst(json_contents=json.dumps(case['ast'])).process()
+            fc = parse()
             if shared is not None:
                 shared['ast'], shared['fc'] = case['ast'], fc
         mc = None
@@ -452,6 +565,12 @@ def build_real(case, shared=None):
                              creator_info=cfg.get('creator'))
         if shared is not None:
             builder = shared.setdefault('builder', Builder())
+            conf = live_configuration(shared, conf)
+        elif session:
+            if _SESSION['builder'] is None:
+                _SESSION['builder'] = Builder()
+            builder = _SESSION['builder']
+            conf = live_configuration(_SESSION, conf)
         else:
             builder = Builder()
         res = builder.build(conf)
@@ -462,6 +581,6 @@ def build_real(case, shared=None):
     return {'ok': {'files': [{'name': f.filename, 'contents': f.contents} for f in res.files]}}, res
 
 
-def build_impl(case, shared=None):
-    r = build_real(case, shared)
+def build_impl(case, shared=None, fresh=None):
+    r = build_real(case, shared, fresh)
     return r[0] if isinstance(r, tuple) else r
